@@ -676,3 +676,101 @@ class Gen:
                     if g not in out:
                         out.append(g)
         return out
+
+
+# ---------------------------------------------------------------------------------------
+# deliberate shape: a coinductive cycle that leans on something false, and a bystander that
+# reaches the cycle only through a non-head member (C05, second sentence: "a result that relied
+# on a cyclic assumption that later turned out false is never reported or reused").  The
+# recursive solver pops obligations from the back, so every field / where-clause ORDER of the
+# small items is a different search: the family is enumerated over all of them.
+# ---------------------------------------------------------------------------------------
+
+def _perms(xs):
+    import itertools
+    return [list(p) for p in itertools.permutations(xs)]
+
+
+def cycle_fail_programs(rng, n_extra):
+    """[(Prog, [goal atom ...])]: the 6 field orders of the minimal witness always, plus
+    `n_extra` random members of the wider family (ring of 3, #[coinductive] trait with
+    where-clause orders, leaf behind a tuple, bystander chains, enums, a leaf that does hold)."""
+    T = lambda n: ("adt", n, ())
+    out = []
+
+    def auto_prog(node_fields, ring, label_target, leaf_ok=False, label_extra=None, enum_node=False, chain=False):
+        # ring = names of the cycle members after Node (Node -> ring[0] -> ... -> Node)
+        adts = [Adt("NotSend")]
+        adts.append(Adt("Node", 0, "enum" if enum_node else "struct", [node_fields] if not enum_node else [[f] for f in node_fields]))
+        for i, r in enumerate(ring):
+            nxt = ring[i + 1] if i + 1 < len(ring) else "Node"
+            adts.append(Adt(r, 0, "struct", [[T(nxt)]]))
+        lf = [T(label_target)] + ([label_extra] if label_extra else [])
+        if label_extra and rng.random() < 0.5:
+            lf.reverse()
+        adts.append(Adt("Label", 0, "struct", [lf]))
+        if chain:
+            adts.append(Adt("Label2", 0, "struct", [[T("Label")]]))
+        impls = [] if leaf_ok else [Impl(0, ("Send", (T("NotSend"),)), [], False)]
+        p = Prog(adts, [Trait("Send", auto=True)], impls, [], "cycle-fail")
+        goals = [("Send", (T("Node"),)), ("Send", (T(ring[0]),)), ("Send", (T("Label"),))]
+        if chain:
+            goals.append(("Send", (T("Label2"),)))
+        return p, goals
+
+    def co_prog(wcs_order, extra_trait=False):
+        # #[coinductive] trait C: impl C for Node where <order of [Bad: C, Label: C, Edge: C]>; Bad has no impl
+        adts = [Adt("Bad"), Adt("Node"), Adt("Edge"), Adt("Label")]
+        wc = {"bad": ("C", (T("Bad"),)), "label": ("C", (T("Label"),)), "edge": ("C", (T("Edge"),))}
+        impls = [Impl(0, ("C", (T("Node"),)), [wc[k] for k in wcs_order]),
+                 Impl(0, ("C", (T("Edge"),)), [("C", (T("Node"),))]),
+                 Impl(0, ("C", (T("Label"),)), [("C", (T("Edge"),))])]
+        p = Prog(adts, [Trait("C", coind=True)], impls, [], "cycle-fail-co")
+        return p, [("C", (T("Node"),)), ("C", (T("Edge"),)), ("C", (T("Label"),))]
+
+    base = [T("NotSend"), T("Label"), T("Edge")]
+    for fs in _perms(base):
+        out.append(auto_prog(fs, ["Edge"], "Edge"))
+    for _ in range(n_extra):
+        r = rng.random()
+        if r < 0.3:
+            ring = ["E1", "E2"]
+            fs = [T("NotSend"), T("Label"), T("E1")]
+            rng.shuffle(fs)
+            out.append(auto_prog(fs, ring, rng.choice(ring)))
+        elif r < 0.55:
+            order = ["bad", "label", "edge"]
+            rng.shuffle(order)
+            out.append(co_prog(order))
+        elif r < 0.7:
+            leaf = rng.choice([("tuple", (("scalar", "u8"), T("NotSend"))), ("array", T("NotSend"), 2), ("ref", False, T("NotSend"))])
+            fs = [leaf, T("Label"), T("Edge")]
+            rng.shuffle(fs)
+            out.append(auto_prog(fs, ["Edge"], "Edge", label_extra=("scalar", "u8")))
+        elif r < 0.82:
+            fs = list(base)
+            rng.shuffle(fs)
+            out.append(auto_prog(fs, ["Edge"], "Edge", chain=True))
+        elif r < 0.92:
+            fs = list(base)
+            rng.shuffle(fs)
+            out.append(auto_prog(fs, ["Edge"], "Edge", enum_node=True))
+        else:
+            fs = list(base)
+            rng.shuffle(fs)
+            out.append(auto_prog(fs, ["Edge"], "Edge", leaf_ok=True))
+    return out
+
+
+# closed conjunction goals of literals: [(negated, atom), ...]
+
+def conj_text(lits):
+    return ", ".join(("not { %s }" % goal_text(a)) if neg else goal_text(a) for neg, a in lits)
+
+
+def conj_model(lits, p):
+    gs = [("RNot", ("RAtom", atom_model(a, p))) if neg else ("RAtom", atom_model(a, p)) for neg, a in lits]
+    out = gs[-1]
+    for g in reversed(gs[:-1]):
+        out = ("RAnd", g, out)
+    return out
